@@ -80,8 +80,9 @@ def gen_scenario(rng, component=None, kinds=('int', 'str', 'str', 'tuple', 'fd')
             params = dict(rao=rng.random() < 0.8, rno=True, h=_upper_bound(problem))
         elif comp == 'semimdp':
             params = dict(nsim=rng.choice((2, 5)), optname=rng.choice(('o', 'go-left', 'opt_7')), max_steps=rng.choice((5, 50)), pseed=rng.randrange(10 ** 6),
-                          planned=rng.random() < 0.4)
+                          planned=rng.random() < 0.5)
             params['mix'] = rng.random() < 0.4
+            params['planner'] = rng.choice(('vi', 'lao', 'lrtdp', 'lao'))       # what plans a planned option's sub-task
         elif comp in ('rollout_mdp', 'evaluate_mdp'):
             params = dict(cap=rng.choice((5, 20)), nsim=rng.choice((2, 4)), pseed=rng.randrange(10 ** 6), tabular=rng.random() < 0.5)
             params['mix'] = rng.random() < 0.4
@@ -389,8 +390,20 @@ def run_component(sc, problem, algo, env):
             # a sub-goal option planned by value iteration, created WITHOUT a name (as the library's own examples do)
             from msdm.core.semimdp.option import PlanToSubgoalOption
             from msdm.algorithms.valueiteration import ValueIteration
+            planner = ValueIteration(max_iterations=2000)
+            if p.get('planner') in ('lao', 'lrtdp'):
+                # an order-sensitive seeded planner: the order in which it meets the sub-task's start states and actions matters
+                _v = MDPView(sc['problem']['spec']) if sc['problem'].get('type') == 'mdp' else None
+                hub = (max(0.0, max(_v.R.values())) / (1 - _v.gamma)) if _v is not None and _v.gamma < 1 else None
+                if hub is not None:
+                    if p['planner'] == 'lao':
+                        from msdm.algorithms.laostar import LAOStar
+                        planner = LAOStar(heuristic=lambda s_: hub, seed=seed + 5, max_lao_star_iterations=3000)
+                    else:
+                        from msdm.algorithms.lrtdp import LRTDP
+                        planner = LRTDP(heuristic=lambda s_: hub, seed=seed + 5, randomize_action_order=True, iterations=3000)
             o = PlanToSubgoalOption(mdp=problem, initial_states=[x for x in states if x not in term] or states[:1], subgoals=sorted(term, key=lambda x: str(canon(x))),
-                                    planner=ValueIteration(max_iterations=2000), include_mdp_absorbing_states=True, max_steps=p['max_steps'])
+                                    planner=planner, include_mdp_absorbing_states=True, max_steps=p['max_steps'])
         if getattr(env, 'share', False) and sc['problem'].get('type') == 'mdp':
             # the option object is shared with a second semi-MDP over another model (same keys), which uses it first
             other = make_mdp(MDPView(nested_variant_spec(sc['problem']['spec'], 3)), None)
@@ -433,7 +446,18 @@ def run_component(sc, problem, algo, env):
                 pairs.append(["semimdp: the query that hit the step limit, repeated with a higher limit on the same semi-MDP vs on a fresh equally seeded one", res[0], res[1]])
             finally:
                 o.max_steps = old_ms
-        return dict(dists=out, must_equal=pairs)
+        extra = {}
+        if p.get('planned') and p.get('planner') in ('lao', 'lrtdp') and hasattr(o, 'planning_result'):
+            # the seeded planner's own account of planning the sub-task (what it explored, in which order it got there)
+            try:
+                pr = o.planning_result
+                if p['planner'] == 'lao':
+                    extra = dict(iterations=int(pr.iterations), values=sorted(([canon(k), float(v)] for k, v in pr.state_value_map.items()), key=lambda x: str(x[0])))
+                else:
+                    extra = dict(values=sorted(([canon(k), float(v)] for k, v in dict.items(pr.V)), key=lambda x: str(x[0])))
+            except Exception as e:
+                extra = dict(planning_result='undefined:' + type(e).__name__)
+        return dict(dists=out, must_equal=pairs, plan=extra)
     if comp == 'implicit':
         from msdm.core.distributions import ImplicitDistribution
         pr = p['p']
